@@ -15,7 +15,7 @@ ID = 'C17'
 MODEL_TARGETS = ['theories/C17/Run.vo']
 PROOF_TARGETS = ['theories/C17/Properties.vo']
 PROPERTIES_V = 'theories/C17/Properties.v'
-IMPORTS = 'Require Import FV.Gen.C17 FV.C17.Model FV.C17.Run.'
+IMPORTS = 'Require Import FV.Gen.C17 FV.C17.Model FV.C17.ConcModel FV.C17.Run.'
 CASE_TYPE = 'case'
 CHECK = 'check_case'
 SHARD_SIZE = 150
@@ -253,6 +253,10 @@ class FakeFS:
         self.dumps = []       # data objects passed to json.dump in the current op
         self.oplog = []
         self.handles = {}     # fake fd -> Writer
+        self.sched = None     # harness.dsched.Scheduler of a concurrent case: every call is a switch point
+        self.conc = False     # concurrent case: files are inodes shared by all writers (POSIX semantics)
+        self.events = []      # concurrent case: [thread, call, change of the stored file]
+        self.cdumps = []      # concurrent case: [thread, dumped object, chunk count]
 
     def arm(self, fault):
         self.fault = fault
@@ -292,10 +296,16 @@ class FakeFS:
         return os.path.relpath(p, self.root)
 
     # -- one file-system call
+    def thread_name(self):
+        t = self.sched.current_thread() if self.sched is not None else None
+        return t.name if t is not None else 'main'
+
     def call(self, func, roles, effect, idx=None):
         if self.dead:
             raise Crash()
         name = func + (':' + roles if roles else '') + ('' if idx is None else f':{idx}')
+        if self.conc:
+            return self.conc_call(name, effect)
         index = len(self.oplog)
         kind = None
         f = self.fault
@@ -322,6 +332,23 @@ class FakeFS:
             raise Crash()
         return effect()
 
+    def conc_call(self, name, effect):
+        """concurrent case: the call is a switch point of the deterministic scheduler BEFORE it takes effect; the
+        stored file is looked at after every call (these are all the points at which a crash can find it)"""
+        if self.sched is not None:
+            self.sched.switch('fs:' + name)
+        who = self.thread_name()
+        before = file_bytes(self.files.get(self.target))
+        ev = [who, name, None]
+        self.events.append(ev)
+        self.oplog.append(name)
+        try:
+            return effect()
+        finally:
+            after = file_bytes(self.files.get(self.target))
+            if after != before:
+                ev[2] = {'gone': True} if after is None else {'raw': list(after)}
+
     def unmodelled(self, func, *paths):
         roles = '>'.join(self.role(p) for p in paths if self.is_fake(p))
 
@@ -346,6 +373,16 @@ class FakeFS:
                 if 'x' in mode and p in self.files:
                     raise FileExistsError(17, 'File exists', p)
                 old = self.files.get(p)
+                if self.conc:
+                    if 'a' in mode or '+' in mode or 'x' in mode:
+                        raise Unmodelled('open mode ' + mode)
+                    if old is None:
+                        old = self.files[p] = {'raw': b''}
+                    else:                      # O_TRUNC: the SAME inode, whoever else has it open
+                        for k in [k for k in old if k != 'raw']:
+                            del old[k]
+                        old['raw'] = b''
+                    return ConcWriter(self, old, p)
                 if ('a' in mode or ('+' in mode and 'r' in mode)) and old is not None:
                     if 'raw' in old:
                         old = {'chunks': [old['raw'].decode('utf-8', 'surrogateescape')], 'data': None, 'n': 0}
@@ -540,6 +577,54 @@ class Writer:
         return lambda *a, **k: self.fs.unmodelled('file.' + name, self.path)
 
 
+class ConcWriter:
+    """file object of a concurrent case: writes go to the inode at the offset of THIS file object (holes are
+    filled with NUL bytes), wherever the inode is linked now"""
+    def __init__(self, fs, inode, path):
+        self.fs, self.f, self.path, self.count, self.pos, self.closed = fs, inode, path, 0, 0, False
+        self.name = path
+        self.mode = 'w'
+        self.encoding = 'utf-8'
+
+    def write(self, s):
+        if self.closed:
+            raise ValueError('I/O operation on closed file.')
+        b = s.encode('utf-8', 'surrogateescape') if isinstance(s, str) else bytes(s)
+
+        def effect():
+            raw = self.f['raw']
+            if len(raw) < self.pos:
+                raw = raw + b'\0' * (self.pos - len(raw))
+            self.f['raw'] = raw[:self.pos] + b + raw[self.pos + len(b):]
+            self.pos += len(b)
+        self.fs.call('write', self.fs.role(self.path), effect, self.count)
+        self.count += 1
+        return len(s)
+
+    def flush(self):
+        self.fs.call('flush', self.fs.role(self.path), lambda: None)
+
+    def close(self):
+        if self.closed:
+            return
+
+        def effect():
+            self.closed = True
+        self.fs.call('close', self.fs.role(self.path), effect)
+
+    def __enter__(self):
+        return self
+
+    def __exit__(self, *exc):
+        self.close()
+        return False
+
+    def __getattr__(self, name):
+        if name.startswith('__'):
+            raise AttributeError(name)
+        return lambda *a, **k: self.fs.unmodelled('file.' + name, self.path)
+
+
 _PATH_UNMODELLED = ('stat', 'lstat', 'is_mount', 'is_symlink', 'is_junction', 'is_block_device', 'is_char_device',
                     'is_fifo', 'is_socket', 'samefile', 'iterdir', 'glob', 'rglob', 'walk', 'owner', 'group', 'readlink',
                     'chmod', 'lchmod', 'symlink_to', 'hardlink_to', 'link_to')
@@ -714,6 +799,8 @@ class FakeJson:
         except Exception:
             n = 0
         self._fs.dumps.append((obj, n))
+        if self._fs.conc:
+            self._fs.cdumps.append([self._fs.thread_name(), obj, n])
         if isinstance(fp, Writer):
             fp.f['data'] = obj
             fp.f['n'] = n
@@ -854,6 +941,12 @@ def canon_file(f):
 
 
 def run_case(case):
+    if case.get('kind') == 'conc':
+        return run_conc(case)
+    return run_seq(case)
+
+
+def run_seq(case):
     import frappy.persistent as P
     import frappy.modulebase as MB
     from frappy.lib import generalConfig
@@ -965,6 +1058,322 @@ def run_case(case):
         except Exception:
             pass
 
+
+
+# ------------------------------------------------------------------ concurrent cases (real threads under harness/dsched.py)
+# case: {'kind': 'conc', 'params': [...], 'threads': [[[pname, value], ...], ...], 'sched': {'seed': k, 'stick': x} |
+#        {'points': {step: index}} | {'decisions': [thread names]}}
+# The module is created (fault free) on an empty directory; then thread Ti assigns its values one after the other with
+# `m.<pname> = value` (Parameter.__set__ -> announceUpdate -> callbacks -> saveParameters for persistent='auto').
+# Switch points of the deterministic scheduler: the acquisition of updateLock (a dsched RLock) and EVERY recorded
+# file-system call (before it takes effect).  The stored file is looked at after every file-system call.
+def _sched_policy(spec):
+    from harness import dsched
+    if 'decisions' in spec:
+        return dsched.Explicit(spec['decisions'])
+    if 'points' in spec:
+        return dsched.Preempt(spec['points'])
+    return dsched.Seeded(spec['seed'], spec.get('stick', 0.0))
+
+
+def run_conc(case):
+    import frappy.persistent as P
+    import frappy.modulebase as MB
+    from frappy.lib import generalConfig
+    from harness import dsched
+
+    os.makedirs(os.path.join(WORKDIR, 'persistent'), exist_ok=True)
+    fs = FakeFS(WORKDIR)
+    params = case['params']
+    names = [f'p{i}' for i in range(len(params))]
+    saved = {}
+    prev_fs = FakePath._fs
+    FakePath._fs = fs
+    sentinel = object()
+    for modobj, attr, new in ((P, 'open', fs.open), (P, 'os', FakeOs(fs)), (P, 'json', FakeJson(fs)),
+                              (MB, 'time', FakeTime())):
+        saved[(modobj, attr)] = modobj.__dict__.get(attr, sentinel)
+        setattr(modobj, attr, new)
+    try:
+        try:
+            prev_logdir = generalConfig.logdir
+        except Exception:
+            prev_logdir = sentinel
+        generalConfig.logdir = FakePath(WORKDIR)
+        cls = mk_class(params)
+        cls.hwlog = []
+        fs.arm(None)
+        res = {'init_exc': None, 'stray': []}
+        try:
+            m = cls(MODNAME, Log(), {'description': ''}, ServerStub())
+        except Exception as e:
+            res['init_exc'] = type(e).__name__
+            return res
+        res['n0'] = fs.dumps[0][1] if fs.dumps else 0
+        res['init_raw'] = None if file_bytes(fs.files.get(fs.target)) is None else list(file_bytes(fs.files.get(fs.target)))
+        sched = dsched.Scheduler(_sched_policy(case['sched']), max_steps=4000)
+        m.updateLock = sched.RLock()
+        m.updateLock.name = 'U'
+        fs.arm(None)
+        fs.sched, fs.conc = sched, True
+        done = [[] for _ in case['threads']]       # per thread, per assignment: [exception name or None, chunk count of its dump or 0]
+
+        def worker(i):
+            me = f'T{i}'
+            for pname, value in case['threads'][i]:
+                k = sum(1 for d in fs.cdumps if d[0] == me)
+                exc = None
+                try:
+                    setattr(m, pname, to_py(value))
+                except Exception as e:
+                    exc = type(e).__name__
+                mine = [d for d in fs.cdumps if d[0] == me]
+                done[i].append([exc, mine[k][2] if len(mine) > k else 0, len(mine) - k])
+
+        def main():
+            hs = [sched.spawn(worker, f'T{i}', i) for i in range(len(case['threads']))]
+            for h in hs:
+                h.join()
+
+        rr = sched.run(main)
+        fs.sched, fs.conc = None, False
+        first, last = {}, {}
+        for k, (t, _, _) in enumerate(rr.trace):
+            first.setdefault(t, k)
+            last[t] = k
+        res['contended'] = sum(1 for k, (_, enabled, _) in enumerate(rr.steps) for t in first
+                               if t != 'main' and first[t] < k <= last[t] and t not in enabled)
+        res.update({
+            'status': rr.status, 'error': rr.error, 'thread_errors': rr.thread_errors, 'decisions': list(rr.decisions),
+            'trace': [[t, lab] for t, lab, _ in rr.trace], 'events': fs.events, 'done': done,
+            'dumps': [[t, {k: from_py(v) for k, v in obj.items()} if isinstance(obj, dict) else None, n]
+                      for t, obj, n in fs.cdumps],
+        })
+        pd = m.persistentData
+        res['mod'] = {'vals': {n: from_py(m.parameters[n].value) for n in names},
+                      'wd': [[n, from_py(v)] for n, v in m.writeDict.items()],
+                      'pd': {k: from_py(v) for k, v in pd.items()} if isinstance(pd, dict) else 'nondict',
+                      'init': {n: from_py(v) for n, v in m.initData.items()}}
+        tb, mb = file_bytes(fs.files.get(fs.target)), file_bytes(fs.files.get(fs.tmp))
+        res['raw'] = None if tb is None else list(tb)
+        res['tmp_raw'] = None if mb is None else list(mb)
+        res['other'] = sorted(q for q in fs.files if q not in (fs.target, fs.tmp))
+        # a restart from the directory as it is now
+        fs.arm(None)
+        try:
+            m2 = cls(MODNAME, Log(), {'description': ''}, ServerStub())
+            res['restart'] = {'exc': None, 'vals': {n: from_py(m2.parameters[n].value) for n in names}}
+        except Exception as e:
+            res['restart'] = {'exc': type(e).__name__, 'vals': None}
+        for root, _, files in os.walk(WORKDIR):
+            for fn in files:
+                res['stray'].append(fn)
+                try:
+                    os.remove(os.path.join(root, fn))
+                except OSError:
+                    pass
+        return res
+    finally:
+        fs.sched, fs.conc = None, False
+        FakePath._fs = prev_fs
+        for (modobj, attr), old in saved.items():
+            if old is sentinel:
+                try:
+                    delattr(modobj, attr)
+                except AttributeError:
+                    pass
+            else:
+                setattr(modobj, attr, old)
+        try:
+            if prev_logdir is not sentinel:
+                generalConfig.logdir = prev_logdir
+        except Exception:
+            pass
+
+
+def _conc_tid(name):
+    return int(name[1:])
+
+
+def _conc_content(raw, obs):
+    """content of a file of a concurrent run as the model describes it: the complete text of one of the dumped
+    documents, or foreign bytes"""
+    if raw is None:
+        return None
+    raw = bytes(raw)
+    if obs.get('init_raw') is not None and raw == bytes(obs['init_raw']):
+        doc = json.loads(raw.decode('utf-8'))
+        return {'k': obs['n0'], 'n': obs['n0'], 'data': {k: from_py(v) for k, v in doc.items()}, 'consistent': True}
+    for _, data, n in reversed(obs['dumps']):
+        if data is not None and ''.join(chunks_of({k: to_json(v) for k, v in data.items()})).encode('utf-8') == raw:
+            return {'k': n, 'n': n, 'data': data, 'consistent': True}
+    return {'foreign': parse_foreign(raw)}
+
+
+def _encode_conc(case, obs):
+    if obs.get('stray'):
+        raise ValueError(f'files written past the patched names (real file system): {obs["stray"]}')
+    if obs.get('init_exc'):
+        raise ValueError(f'start-up of the concurrent case raised {obs["init_exc"]}')
+    if obs['status'] != 'ok' or obs['error'] or obs['thread_errors']:
+        raise ValueError(f'concurrent run did not finish: {obs["status"]} {obs["error"]} {obs["thread_errors"]}')
+    if obs['other']:
+        raise ValueError(f'unexpected files: {obs["other"]}')
+    params = case['params']
+    pseudo = {'params': params, 'ops': [['set', p, v] for th in case['threads'] for p, v in th]}
+    T = Tables(pseudo, {'steps': []})
+    K = Keys(len(params))
+    M = []
+    for p in params:
+        M.append('{| p_dt := %s; p_pers := %s; p_hasw := %s; p_default := %s |}' % (
+            enc_dt(p['dt'], T), gal.nat({None: 0, 'off': 0, 'on': 1, 'auto': 2}[p['pers']]),
+            gal.boolean(p['w'] != 'none'), enc_val(p['default'])))
+    thr = []
+    for th, dn in zip(case['threads'], obs['done']):
+        items = []
+        for (pname, value), (exc, n, nd) in zip(th, dn):
+            if exc is not None:
+                raise ValueError(f'assignment raised {exc}')
+            if nd > 1:
+                raise ValueError('more than one json.dump in one assignment')
+            items.append('{| a_p := %s; a_v := %s; a_n := %s |}' % (gal.nat(K(pname)), enc_val(value), gal.nat(n)))
+        thr.append('[%s]' % '; '.join(items))
+    sched = [gal.nat(_conc_tid(t)) for t, lab in obs['trace'] if t != 'main' and lab != 'start']
+    events = []
+    for who, call, _ in obs['events']:
+        if who == 'main':
+            raise ValueError('file-system call outside the worker threads')
+        events.append(f'({gal.nat(_conc_tid(who))}, {model_call(call)})')
+    m = obs['mod']
+    ms = '{| vals := %s; wdict := %s; pdata := %s; initd := %s |}' % (
+        enc_amap(m['vals'], K), enc_amap(m['wd'], K),
+        'None' if m['pd'] == 'nondict' else f'(Some {enc_amap(m["pd"], K)})', enc_amap(m['init'], K))
+    return ('(CConc {| k_M := [%s]; k_n0 := %s; k_thr := [%s]; k_sched := [%s];\n k_events := [%s];\n'
+            ' k_target := %s; k_tmp := %s; k_mod := %s |})') % (
+        '; '.join(M), gal.nat(obs['n0']), '; '.join(thr), '; '.join(sched), '; '.join(events),
+        enc_content(_conc_content(obs['raw'], obs), K), enc_content(_conc_content(obs['tmp_raw'], obs), K), ms)
+
+
+def _oracle_conc(case, obs):
+    """the property text on a concurrent run: at every point (after every file-system call) the stored file is a
+    complete snapshot; after all threads have finished it holds the final values; a restart restores them"""
+    fails = []
+
+    def fail(cls, what, **kw):
+        fails.append(dict({'class': cls, 'what': what}, **kw))
+
+    if obs.get('init_exc'):
+        fail('startup-raised', f'creating the module on an empty directory raised {obs["init_exc"]}', exc=obs['init_exc'],
+             file=None)
+        return fails
+    params = case['params']
+    pers = _pers_names(case)
+    # transport forms every persistent parameter can have in a snapshot: default or one of the assigned values
+    allowed = {}
+    for i, p in enumerate(params):
+        if p['pers'] in ('on', 'auto'):
+            allowed[f'p{i}'] = [to_json(spec_export(p['dt'], p['default']))]
+    for th in case['threads']:
+        for pname, value in th:
+            if pname in allowed:
+                allowed[pname].append(to_json(spec_export(params[int(pname[1:])]['dt'], value)))
+    sched = obs.get('decisions')
+
+    def snapshot_problem(raw):
+        if raw is None:
+            return 'the stored file vanished'
+        raw = bytes(raw)
+        doc = _doc_of(raw)
+        if not isinstance(doc, dict) or sorted(doc) != sorted(pers) or not raw.endswith(b'\n'):
+            return f'stored file is not a complete snapshot: {raw[:80]!r}'
+        for k, v in doc.items():
+            if not any(v == a and type(v) is type(a) or (v == a and not isinstance(v, bool) and not isinstance(a, bool))
+                       for a in allowed[k]):
+                return f'stored snapshot has {k}={v!r}, a value the parameter never had'
+        return None
+
+    for idx, (who, call, chg) in enumerate(obs['events']):
+        if chg is None:
+            continue
+        why = snapshot_problem(None if 'gone' in chg else chg['raw'])
+        if why:
+            fail('atomic', f'concurrent assignments, after file-system call {idx} ({call} by {who}): {why}; '
+                           f'schedule (thread per step): {sched}', event=idx)
+            break
+    if obs['status'] != 'ok':
+        return fails           # (deadlock / budget: not a statement of this property; the case is refused by encode)
+    why = snapshot_problem(obs['raw'])
+    if why and not fails:
+        fail('atomic', f'concurrent assignments, all threads finished: {why}; schedule: {sched}')
+    # (a parameter with persistent='auto' is saved by its own assignment, so its final value must be on disk; one with
+    #  persistent=True is only saved along with a later save)
+    auto = [f'p{i}' for i, p in enumerate(params) if p['pers'] == 'auto']
+    exp = _expected_snapshot(case, obs['mod']['vals'])
+    doc = None if obs['raw'] is None else _doc_of(bytes(obs['raw']))
+    if not why and exp is not None and not obs['mod']['wd'] and any(doc[k] != exp[k] for k in auto):
+        fail('save-lost', f'concurrent assignments, all threads finished: the disk has {doc}, the values are {exp}; '
+                          f'schedule: {sched}')
+    rs = obs['restart']
+    if rs['exc'] is not None:
+        fail('startup-raised', f'restart after the concurrent assignments raised {rs["exc"]}', exc=rs['exc'],
+             file=None if obs['raw'] is None else bytes(obs['raw']).decode('utf-8', errors='replace'))
+    elif not obs['mod']['wd']:
+        for n in auto:
+            if not cv_eq(rs['vals'][n], obs['mod']['vals'][n]):
+                fail('roundtrip', f'concurrent assignments: {n} was {obs["mod"]["vals"][n]} when all threads had finished, '
+                                  f'is {rs["vals"][n]} after a restart; schedule: {sched}')
+                break
+    return fails
+
+
+CONC_FIXED = [
+    [{'dt': ['str', 0, 8, False], 'pers': 'auto', 'w': 'none', 'default': 'a0'},
+     {'dt': ['str', 0, 8, False], 'pers': 'auto', 'w': 'none', 'default': 'b0'},
+     {'dt': ['float'], 'pers': 'auto', 'w': 'none', 'default': {'f': (1.5).hex()}}],
+    [{'dt': ['int', -1000, 1000], 'pers': 'auto', 'w': 'none', 'default': 1},
+     {'dt': ['tuple', [['bool'], ['enum', [['a', 1], ['b', 2], ['c', 5]]]]], 'pers': 'auto', 'w': 'none', 'default': [True, 2]},
+     {'dt': ['int', 0, 10], 'pers': 'on', 'w': 'none', 'default': 3}],
+]
+
+
+def _conc_threads(params, rng, nthreads, nassign):
+    auto = [i for i, p in enumerate(params) if p['pers'] == 'auto']
+    ths = []
+    for t in range(nthreads):
+        th = []
+        for _ in range(nassign):
+            i = auto[t % len(auto)] if rng.random() < 0.7 else rng.randrange(len(params))
+            v = gen_value(params[i]['dt'], rng)
+            for _ in range(4):
+                if not cv_eq(v, params[i]['default']):
+                    break
+                v = gen_value(params[i]['dt'], rng)
+            th.append([f'p{i}', v])
+        ths.append(th)
+    return ths
+
+
+def conc_cases(seed, tier):
+    """(a) one preemption at EVERY step of a two-thread run (the other thread then runs as far as it can);
+    (b) two preemptions at a stride; (c) seeded random schedules of 2..3 threads with 1..2 assignments each"""
+    rng = random.Random(seed * 7919 + 5)
+    cases = []
+    for params in CONC_FIXED:
+        ths = _conc_threads(params, rng, 2, 1)
+        for s in range(0, 48):
+            cases.append({'kind': 'conc', 'params': params, 'threads': ths, 'sched': {'points': {str(s): 1}}})
+        ths = _conc_threads(params, rng, 2, 2)
+        for s in range(2, 40, 3):
+            for s2 in range(s + 2, s + 14, 4):
+                cases.append({'kind': 'conc', 'params': params, 'threads': ths,
+                              'sched': {'points': {str(s): 1, str(s2): 2}}})
+    nrand = {'quick': 120}.get(tier, 1500)
+    for k in range(nrand):
+        params = CONC_FIXED[k % len(CONC_FIXED)]
+        ths = _conc_threads(params, rng, rng.choice([2, 2, 3]), rng.choice([1, 2]))
+        cases.append({'kind': 'conc', 'params': params, 'threads': ths,
+                      'sched': {'seed': rng.randrange(10 ** 6), 'stick': rng.choice([0.0, 0.5, 0.8])}})
+    return cases
 
 # ------------------------------------------------------------------ encoding into Gallina
 def enc_fl(x):
@@ -1256,6 +1665,12 @@ def encode(case, obs):
 
 
 def _encode(case, obs):
+    if case.get('kind') == 'conc':
+        return _encode_conc(case, obs)
+    return '(CSeq ' + _encode_seq(case, obs) + ')'
+
+
+def _encode_seq(case, obs):
     if obs.get('stray'):
         raise ValueError(f'files written past the patched names (real file system): {obs["stray"]}')
     I = _intern
@@ -1326,6 +1741,8 @@ def _expected_snapshot(case, vals):
 
 
 def oracle(case, obs):
+    if case.get('kind') == 'conc':
+        return _oracle_conc(case, obs)
     fails = []
 
     def fail(cls, what, **kw):
@@ -1513,12 +1930,29 @@ FINDING_CLASSIFIERS = {
 
 
 def nontrivial_key(case, obs):
+    if case.get('kind') == 'conc':
+        if not obs.get('dumps'):
+            return None
+        return json.dumps([case['params'], case['threads'], obs.get('decisions')], sort_keys=True)
     if not any(st['ndumps'] or (st['target'] and 'foreign' in st['target']) for st in obs['steps']):
         return None
     return json.dumps([case['params'], case['ops']], sort_keys=True)
 
 
 def outcome_labels(case, obs):
+    if case.get('kind') == 'conc':
+        labs = {'conc', f'conc:threads:{len(case["threads"])}', 'conc:status:' + str(obs.get('status'))}
+        saves = len(obs.get('dumps') or [])
+        labs.add(f'conc:saves:{min(saves, 4)}')
+        tr = [t for t, lab in obs.get('trace') or [] if t != 'main']
+        if any(a != b for a, b in zip(tr, tr[1:])):
+            labs.add('conc:interleaved-steps')
+        evs = [e[0] for e in obs.get('events') or []]
+        if any(a != b for a, b in zip(evs, evs[1:])):
+            labs.add('conc:saves-of-different-threads')
+        if obs.get('contended'):
+            labs.add('conc:thread-waited-for-updateLock')
+        return sorted(labs)
     labs = set()
     for op, st in zip(case['ops'], obs['steps']):
         labs.add('op:' + op[0])
@@ -1543,6 +1977,9 @@ def outcome_labels(case, obs):
 
 
 def sample_repr(case, obs):
+    if case.get('kind') == 'conc':
+        return {'conc': True, 'params': case['params'], 'threads': case['threads'], 'sched': case['sched'],
+                'decisions': (obs.get('decisions') or [])[:40], 'events': [e[:2] for e in (obs.get('events') or [])[:12]]}
     return {'params': case['params'], 'ops': case['ops'][:6],
             'results': [[st['exc'], st['crashed'], st['fired'], st['oplog'][-3:]] for st in obs['steps']][:6]}
 
@@ -1893,10 +2330,20 @@ def gen_cases(seed, tier):
         for params in pool[3:43]:
             cases.extend(fault_sweep(params, rng))
     cases.extend(rand_case(rng, pool) for _ in range(nrand))
+    cases.extend(conc_cases(seed, tier))
     return cases
 
 
 def shrink(case):
+    if case.get('kind') == 'conc':
+        ths = case['threads']
+        for i in range(len(ths)):
+            if len(ths) > 2:
+                yield dict(case, threads=ths[:i] + ths[i + 1:])
+            for j in range(len(ths[i])):
+                if len(ths[i]) > 1:
+                    yield dict(case, threads=ths[:i] + [ths[i][:j] + ths[i][j + 1:]] + ths[i + 1:])
+        return
     ops = case['ops']
     for i in range(len(ops) - 1, -1, -1):
         if len(ops) > 1:
